@@ -252,9 +252,11 @@ func generate(seed uint64, focus, arm string) *plan.Plan {
 			}
 			return p
 		}
-	case "C02":
+	case "C02", "C09":
 		if arm == "codec" {
-			return genCodec(r, seed)
+			p := genCodec(r, seed)
+			p.Focus = focus
+			return p
 		}
 	case "C05", "C06", "C14", "C16":
 		return genXport(r, seed, focus, arm)
@@ -393,6 +395,9 @@ func genRouter(r *rng, pr *Profile, focus, arm string) *plan.RouterPlan {
 		if proto == "udp" && r.p(0.2) {
 			s.UDPThreads = 2
 		}
+		if proto == "udp" && (strings.HasPrefix(listen, ":") || strings.HasPrefix(listen, "0.0.0.0:")) && r.p(0.4) {
+			s.MultiRoutes = true
+		}
 		rp.Servers = append(rp.Servers, s)
 	}
 	// upstreams
@@ -502,6 +507,9 @@ func genRouter(r *rng, pr *Profile, focus, arm string) *plan.RouterPlan {
 			} else {
 				cc.Src = r.pick(srcs6)
 			}
+		}
+		if srv.MultiRoutes && r.p(0.5) {
+			cc.AltDst = true
 		}
 		if pr.Seg {
 			cc.SegMode = r.intn(4)
@@ -1524,6 +1532,7 @@ func genLateDial(r *rng, seed uint64) *plan.Plan {
 func genCodec(r *rng, seed uint64) *plan.Plan {
 	p := &plan.Plan{Version: 1, Seed: seed, Family: "codec", Focus: "C02", Arm: "codec"}
 	pr := ProfileFor("C02", "clean")
+	pr.Shapes = append(pr.Shapes, "tight", "tight", "plain")
 	pr.OptInReply = 0.5
 	pr.BigAnswers = 0.15
 	cp := &plan.CodecPlan{Alive: []int{0, 1, 3, 8}[r.intn(4)]}
